@@ -91,9 +91,13 @@ def run(tier, seed):
             if kind == "pi":
                 new.update(budget=3)
             ops = [{"op": "shipped", "id": "p", "target": shipped.T["forest"], "kwargs": FOREST_KW}, new] + [{"op": "solve", "sid": "ref", "k": 1} for _ in range(K)]
-            ref = [core.parse_resp(r["resp"]) for r in core.run_impl(ops, 1)][2:]
+            # … and the uninterrupted run itself: one solve(K) call (it may stop by convergence before K, as the killed child's call would)
+            ops += [dict(new, sid="ref2"), {"op": "solve", "sid": "ref2", "k": K}]
+            refall = [core.parse_resp(r["resp"]) for r in core.run_impl(ops, 1)]
+            ref = refall[2:2 + K]
             traj = {int(r["iter"]): r for r in ref}
-            final_iter = max(traj)
+            final = refall[-1]
+            final_iter = int(final["iter"])
             # clean run: conformance of the observed protocol
             oplog = os.path.join(base, f"clean_{kind}{asyn}{f}{m}.log")
             rc = child(base, f"clean_{kind}{asyn}{f}{m}", oplog, 0, asyn, kind, K, f, m)
@@ -185,7 +189,7 @@ def run(tier, seed):
                     if diff:
                         bad.append(f"{diff} of the restored state are not those the solver held at iteration {k} (torn or mislabelled checkpoint)")
                 if cont is not None and k in traj:
-                    wantf = traj[final_iter]
+                    wantf = final
                     keys = ("iter", "values", "gain", "hidx", "hist") + (("policy",) if k < final_iter else ())   # no further solve() call => no policy extraction
                     if any(cont.get(x) != wantf.get(x) for x in keys):
                         bad.append("continuing from the restored state does not reach the uninterrupted final state")
